@@ -85,7 +85,7 @@ ALL_V = ['i64-ast', 'decimal-ast', 'complex-ast', 'f64-ast', 'number-ast'] + PAR
 PLAN = {
     'C01': dict(verus=ALL_V, kani=['i64-ast', 'f64-ast', 'number-ast', 'number-l4'], level='proof', assumptions=AST_ASSUME + F64_ASSUME + PARSER_ASSUME + ['A-stack, A-alloc: stack exhaustion and allocation failure are not modelled'],
                 unclaimed=['stack exhaustion on deeply nested input (A-stack)']),
-    'C02': dict(verus=ALL_V, kani=['f64-ast', 'number-ast'], level='proof', assumptions=AST_ASSUME + F64_ASSUME + PARSER_ASSUME,
+    'C02': dict(verus=ALL_V, kani=['f64-ast', 'number-ast', 'i64-ast'], level='proof', assumptions=AST_ASSUME + F64_ASSUME + PARSER_ASSUME,
                 unclaimed=[
                            'the sum of the three machine-checked bounds (tokenizer: one token per >= 1 character; parser: <= 8 * tokens + 9 steps; evaluator: <= 2 * tokens calls, loops capped) into the single figure 4096 + 256*len is arithmetic on paper', 'loop iterations inside one Tokenizer::next call (bounded by the characters it consumes: its decreases measure) are not counted by a counter']),
     'C10': dict(verus=ALL_V, kani=['i64-ast', 'f64-ast', 'number-ast', 'number-l4'], level='proof', assumptions=AST_ASSUME + F64_ASSUME + PARSER_ASSUME,
